@@ -6,6 +6,7 @@ import re
 import sys
 import tokenize
 import types
+import weakref
 from ast import NodeTransformer, NodeVisitor
 from collections import Counter
 from copy import deepcopy
@@ -1412,6 +1413,10 @@ def transform(fn, proceed, to_instrument=True, set_conformer=True):
         actual_fn._conformer = _Conformer(fn, actual_fn, proceed)
     actual_fn.__ptera_info__ = info
     actual_fn.__ptera_token__ = fnsym
+    # The reference string of fn also stands for its tooled copies: @tooled
+    # leaves the name bound to the copy, and nothing else to find it by
+    copies = fn.__dict__.setdefault("__ptera_copies__", weakref.WeakSet())
+    copies.add(actual_fn)
     return actual_fn
 
 
